@@ -46,16 +46,16 @@ theorem format_tpf_is_source (a : Assembly) :
     · intro row file
       cases row with
       | gap g =>
-        simp [formatTpfRow, modelTr_is_model, PyRt.asGap, Row.isGap, Row.length, Except.map, bind, Except.bind,
+        simp [formatTpfRow, modelTr_is_model, PyRt.asGap, Row.isGap, Row.length, Except.map,
           Gen.tpfGapWord, Gen.tpfGapFormatDict]
       | frag f =>
-        simp only [formatTpfRow, strandStr, PyRt.asFrag, Row.isGap, imp_map_ok, bind, Except.bind,
-          Gen.tpfFragCol1, Gen.tpfStrandStr]
+        simp [formatTpfRow, strandStr, PyRt.asFrag, Row.isGap, Except.map, Gen.tpfFragCol1, Gen.tpfStrandStr]
         generalize pyGet _ f.strand = ss
-        cases ss <;> simp [Except.map, pure, Except.pure]
+        cases ss <;> simp [Functor.map, Except.map]
   cases List.mapM (fun s : Scaffold => s.rows.mapM (formatTpfRow s.name)) a.scaffolds <;>
     simp [Except.map, pure, Except.pure]
 
+set_option maxRecDepth 8000 in
 /-- the generated function, run: header line, a dictionary gap type, a translated gap type (`short_arm ↦ SHORT-ARM`),
     `-1 ↦ "MINUS"`, the scaffold name in column 3, second scaffold -/
 example : Gen.Imp.format_tpf_imp ["hdr".toList]
@@ -71,12 +71,12 @@ example : Gen.Imp.format_tpf_imp ["hdr".toList]
      "GAP\tTYPE-2\t200\n".toList ++
      "GAP\tSHORT-ARM\t7\n".toList ++
      "?\tctg2:5-9\tscaffold_1\tMINUS\n".toList ++
-     "?\tctg3:11-20\tscaffold_2\tUNKNOWN\n".toList) := by decide +kernel
+     "?\tctg3:11-20\tscaffold_2\tUNKNOWN\n".toList) := by rfl
 
 /-- …and the exception: `STRAND_STR[3]` is an IndexError in the source, after a scaffold that was written fine
     (indices -3 … 2 are all accepted by the tuple lookup, in the source and in the model alike) -/
 example : Gen.Imp.format_tpf_imp [] [{ name := "a".toList, rows := [.gap { length := 3, gapType := "contig".toList }] },
       { name := "b".toList, rows := [.frag { name := "c".toList, start := 1, stop := 2, strand := 3 }] }] modelTr =
-    .error .index := by decide +kernel
+    .error .index := by rfl
 
 end AgpTpf.C05
